@@ -1,15 +1,17 @@
 #!/usr/bin/env python3
 """usage: c10_cmp.py got.txt expected.txt  -> exit 0 iff the token stream of got.txt (line markers dropped, re-lexed)
-equals the white-space separated tokens of expected.txt.  Used by the C10 replay scripts."""
+equals the white-space separated tokens of expected.txt (`#pragma` lines are dropped as well: gcc passes them through,
+chibicc does not; they are not text selected by the property).  Used by the C10 replay scripts."""
 import re
 import sys
 
 TOK = re.compile(r"[A-Za-z_][A-Za-z0-9_]*|\d+|\S")
 LINEMARK = re.compile(r'^[ \t]*#[ \t]*(line[ \t]+)?\d+([ \t]+"[^"\n]*"[ \t\d]*)?[ \t]*$', re.M)
+PRAGMALINE = re.compile(r'^[ \t]*#[ \t]*pragma\b[^\n]*$', re.M)
 
 
 def lex(s):
-    return TOK.findall(LINEMARK.sub("", s))
+    return TOK.findall(LINEMARK.sub("", PRAGMALINE.sub("", s)))
 
 
 if __name__ == "__main__":
